@@ -11,6 +11,28 @@ from regions.core.mask import RegionMask
 __all__ = ['CompoundPixelRegion', 'CompoundSkyRegion']
 
 
+def _mask_value_outside(region):
+    """
+    Return the mask value (0 or 1) that an included ``region`` has
+    outside its bounding box.
+
+    This is 0 for all regions except for compound regions whose operands
+    are excluded regions (e.g., the union with an excluded region
+    contains everything far away from both operands).
+    """
+    if not isinstance(region, CompoundPixelRegion):
+        return 0
+
+    values = []
+    for operand in (region.region1, region.region2):
+        value = _mask_value_outside(operand)
+        if not operand.meta.get('include', True):
+            value = 1 - value
+        values.append(value)
+
+    return int(bool(region.operator(*values)))
+
+
 class CompoundPixelRegion(PixelRegion):
     """
     A class that represents the logical combination of two regions in
@@ -83,8 +105,12 @@ class CompoundPixelRegion(PixelRegion):
             pright = abs(bbox.ixmax - mask.bbox.ixmax)
             ptop = abs(bbox.iymax - mask.bbox.iymax)
             pbottom = abs(mask.bbox.iymin - bbox.iymin)
+            # outside its own bounding box an operand is padded with the
+            # value it has there (non-zero for a compound operand whose
+            # own operands are excluded regions)
             padded = np.pad(mask.data, ((pbottom, ptop), (pleft, pright)),
-                            'constant')
+                            'constant',
+                            constant_values=_mask_value_outside(region))
             if not region.meta.get('include', True):
                 # an excluded operand contributes its complement, as it
                 # does in contains()
